@@ -290,7 +290,11 @@ impl Shared {
                             v.push(Viol::new(format!("C05:cannot-sign:{}", why_cannot(m, &info.params)), format!("a valid in-lifetime key was refused ({} counter {})", self.cfg.label(), info.counter)));
                         } else {
                             class = "valid-key:reject->err".to_string();
-                            if out.cb_args.len() != 1 {
+                            if out.cb_args.is_empty() {
+                                // refused before the callback was consulted: consistent with C04 (no
+                                // invocation, no signature) but a valid key that cannot sign (C05)
+                                v.push(Viol::new(format!("C05:cannot-sign:{}", why_cannot(m, &info.params)), format!("a valid in-lifetime key was refused before the callback was consulted ({} counter {})", self.cfg.label(), info.counter)));
+                            } else if out.cb_args.len() != 1 {
                                 v.push(Viol::new("C04:callback-count-on-reject", format!("callback invoked {} times on the rejecting path", out.cb_args.len())));
                             } else if &out.cb_args[0] != msucc {
                                 v.push(Viol::new("C04:callback-arg", "callback did not receive the complete successor key"));
